@@ -62,6 +62,8 @@ def cases(tier, rng):
             yield {'objs': [], 'compression': comp, 'via': 'path', 'suffix': suffix}
         yield {'objs': [{'a': 1}, {'b': 'x'}, {}], 'compression': comp, 'via': 'at_completion'}
         yield {'objs': [{'a': 1}, {'b': 'x'}, {}], 'compression': comp, 'via': 'open_obj'}
+        yield {'objs': [{'a': 1}, {'b': 'x'}, {}], 'compression': comp, 'via': 'mem_obj'}
+        yield {'objs': [], 'compression': comp, 'via': 'mem_obj'}
     n = {'quick': 120, 'thorough': 800, 'search': 60}[tier]
     for _ in range(n):
         k = rng.choice([0, 1, 2, 5, 50, 300, 300, 1500]) if tier != 'thorough' else rng.choice([0, 1, 5, 100, 1000, 3000])
@@ -74,7 +76,7 @@ def cases(tier, rng):
                 objs[rng.randrange(k)] = {'big': 'x' * rng.choice([70000, 140000])}
         else:
             objs = [gen_obj(rng) for _ in range(k)]
-        yield {'objs': objs, 'compression': rng.choice([None, 'gzip', 'zstd']), 'via': rng.choice(['path', 'path', 'open_obj', 'fileobj', 'shortread', 'at_completion']),
+        yield {'objs': objs, 'compression': rng.choice([None, 'gzip', 'zstd']), 'via': rng.choice(['path', 'path', 'open_obj', 'mem_obj', 'fileobj', 'shortread', 'at_completion']),
                'suffix': rng.choice(['', '', '.jsonl', '.gz', '.zst', '.json.gz', '.jsonl.zst']),
                'encoding': rng.choice([None, None, None, 'utf-16', 'utf-32', 'utf-8-sig'])}
 
@@ -93,12 +95,32 @@ def real(case):
         # an opener that keeps its files somewhere else (a store with its own name space): `name` is not a local path
         opened.append(mode)
         return open(name + '.alt', mode)
+    store = {}
+
+    class MemFile(io.BytesIO):
+        # a file object that is not backed by an OS file (an object store, fsspec, …): no descriptor; its content is committed by close()
+        def __init__(self, name, data=b''):
+            io.BytesIO.__init__(self, data)
+            self._name = name
+
+        def close(self):
+            if not self.closed:
+                store[self._name] = self.getvalue()
+            io.BytesIO.close(self)
+
+    def mem_open(name, mode, encoding):
+        opened.append(mode)
+        if 'w' in mode:
+            return MemFile(name)
+        return io.BytesIO(store[name])
     try:
         kw = {'compression': case['compression']}
         if case.get('encoding'):
             kw['encoding'] = case['encoding']
         if case['via'] == 'open_obj':
             kw['open_obj'] = my_open
+        if case['via'] == 'mem_obj':
+            kw['open_obj'] = mem_open
         if case['via'] == 'at_completion':
             # the dataset pushed by the application (no scheduler involved); the file is read back from inside the completion
             # notification of the dump: by then everything must be in the file
@@ -114,7 +136,10 @@ def real(case):
             raw = open(path, 'rb').read()
         else:
             rx.from_(case['objs']).pipe(rsjson.dump_to_file(path, **kw)).subscribe(on_error=errs.append)
-            raw = open(path + '.alt' if case['via'] == 'open_obj' else path, 'rb').read()
+            if case['via'] == 'mem_obj':
+                raw = store.get(path, b'<never committed: the file object was not closed>')
+            else:
+                raw = open(path + '.alt' if case['via'] == 'open_obj' else path, 'rb').read()
         if case['via'] == 'shortread':
             # a file-like object that legally returns fewer bytes than asked before the end (pipe / socket like)
             class Short(object):
